@@ -7,7 +7,9 @@ import (
 	"io"
 	"sort"
 	"strings"
+	"sync"
 	"sync/atomic"
+	"syscall"
 	"time"
 
 	"github.com/hack-pad/hackpadfs"
@@ -36,6 +38,22 @@ var Deviants = []string{
 	"Close:second-close-succeeds", "Close:keeps-handle-usable",
 	"FileStat:wrong-size", "FileStat:wrong-mode", "FileStat:stale-size",
 	"ReadDir:missing-entry", "ReadDir:duplicate-entry", "ReadDir:wrong-isdir", "ReadDir:no-eof", "ReadDir:ignores-n",
+	"ReadDir:duplicate-in-subdir", "Rename:dest-listed-twice-in-subdir", "Mkdir:listed-twice-in-subdir",
+	// an operation that should succeed fails with an "operation not supported" errno that is NOT ErrNotImplemented
+	"Rename:fails-eopnotsupp", "Rename:cross-dir-fails-enotsup", "Mkdir:fails-eopnotsupp", "MkdirAll:fails-enotsup", "Remove:fails-eopnotsupp", "Chmod:fails-enotsup", "Chtimes:fails-eopnotsupp", "OpenFile:create-fails-eopnotsupp",
+}
+
+// unsupported reports whether the deviant in effect makes 'op' fail with a not-supported errno, and which.
+func (d *DevFS) unsupported(op string) error {
+	switch d.Dev {
+	case op + ":fails-eopnotsupp":
+		d.fire()
+		return syscall.EOPNOTSUPP
+	case op + ":fails-enotsup":
+		d.fire()
+		return syscall.ENOTSUP
+	}
+	return nil
 }
 
 // DevFS wraps a fresh mem.FS; Dev names the one behaviour that differs ("" = none).
@@ -43,6 +61,7 @@ type DevFS struct {
 	inner *mem.FS
 	Dev   string
 	Fired *int64
+	twice sync.Map // directory -> base name that this directory lists twice (…-listed-twice-in-subdir)
 }
 
 // New returns a deviant file system.
@@ -130,6 +149,10 @@ func (d *DevFS) Open(name string) (hackpadfs.File, error) {
 }
 
 func (d *DevFS) OpenFile(name string, flag int, perm hackpadfs.FileMode) (hackpadfs.File, error) {
+	if d.is("OpenFile:create-fails-eopnotsupp") && flag&hackpadfs.FlagCreate != 0 {
+		d.fire()
+		return nil, &hackpadfs.PathError{Op: "open", Path: name, Err: syscall.EOPNOTSUPP}
+	}
 	switch {
 	case d.is("OpenFile:wrong-perm") && flag&hackpadfs.FlagCreate != 0:
 		d.fire()
@@ -160,6 +183,9 @@ func (d *DevFS) OpenFile(name string, flag int, perm hackpadfs.FileMode) (hackpa
 }
 
 func (d *DevFS) Mkdir(name string, perm hackpadfs.FileMode) error {
+	if e := d.unsupported("Mkdir"); e != nil {
+		return &hackpadfs.PathError{Op: "mkdir", Path: name, Err: e}
+	}
 	switch {
 	case d.is("Mkdir:noop"):
 		if _, err := d.inner.Stat(name); err != nil {
@@ -177,7 +203,11 @@ func (d *DevFS) Mkdir(name string, perm hackpadfs.FileMode) error {
 			return d.inner.MkdirAll(name, perm)
 		}
 	}
-	return d.errDev("Mkdir", d.inner.Mkdir(name, perm))
+	err := d.inner.Mkdir(name, perm)
+	if err == nil && d.is("Mkdir:listed-twice-in-subdir") && parentOf(name) != "." {
+		d.twice.Store(parentOf(name), name[strings.LastIndex(name, "/")+1:])
+	}
+	return d.errDev("Mkdir", err)
 }
 
 func parentOf(name string) string {
@@ -188,6 +218,9 @@ func parentOf(name string) string {
 }
 
 func (d *DevFS) MkdirAll(path string, perm hackpadfs.FileMode) error {
+	if e := d.unsupported("MkdirAll"); e != nil {
+		return &hackpadfs.PathError{Op: "mkdir", Path: path, Err: e}
+	}
 	switch {
 	case d.is("MkdirAll:noop"):
 		if _, err := d.inner.Stat(path); err != nil {
@@ -216,6 +249,9 @@ func (d *DevFS) MkdirAll(path string, perm hackpadfs.FileMode) error {
 }
 
 func (d *DevFS) Remove(name string) error {
+	if e := d.unsupported("Remove"); e != nil {
+		return &hackpadfs.PathError{Op: "remove", Path: name, Err: e}
+	}
 	switch {
 	case d.is("Remove:noop"):
 		if _, err := d.inner.Stat(name); err == nil {
@@ -263,6 +299,13 @@ func (d *DevFS) probeRemovable(name string) error {
 }
 
 func (d *DevFS) Rename(oldname, newname string) error {
+	if e := d.unsupported("Rename"); e != nil {
+		return &hackpadfs.LinkError{Op: "rename", Old: oldname, New: newname, Err: e}
+	}
+	if d.is("Rename:cross-dir-fails-enotsup") && parentOf(oldname) != parentOf(newname) {
+		d.fire()
+		return &hackpadfs.LinkError{Op: "rename", Old: oldname, New: newname, Err: syscall.ENOTSUP}
+	}
 	switch {
 	case d.is("Rename:source-left"):
 		if info, err := d.inner.Stat(oldname); err == nil && !info.IsDir() {
@@ -293,7 +336,11 @@ func (d *DevFS) Rename(oldname, newname string) error {
 			return hackpadfs.WriteFullFile(d.inner, newname, data, info.Mode())
 		}
 	}
-	return d.errDev("Rename", d.inner.Rename(oldname, newname))
+	err := d.inner.Rename(oldname, newname)
+	if err == nil && d.is("Rename:dest-listed-twice-in-subdir") && parentOf(newname) != "." {
+		d.twice.Store(parentOf(newname), newname[strings.LastIndex(newname, "/")+1:])
+	}
+	return d.errDev("Rename", err)
 }
 
 type devInfo struct {
@@ -344,6 +391,9 @@ func (d *DevFS) Stat(name string) (hackpadfs.FileInfo, error) {
 }
 
 func (d *DevFS) Chmod(name string, mode hackpadfs.FileMode) error {
+	if e := d.unsupported("Chmod"); e != nil {
+		return &hackpadfs.PathError{Op: "chmod", Path: name, Err: e}
+	}
 	switch {
 	case d.is("Chmod:noop"):
 		if _, err := d.inner.Stat(name); err == nil {
@@ -358,6 +408,9 @@ func (d *DevFS) Chmod(name string, mode hackpadfs.FileMode) error {
 }
 
 func (d *DevFS) Chtimes(name string, atime, mtime time.Time) error {
+	if e := d.unsupported("Chtimes"); e != nil {
+		return &hackpadfs.PathError{Op: "chtimes", Path: name, Err: e}
+	}
 	switch {
 	case d.is("Chtimes:noop"):
 		if _, err := d.inner.Stat(name); err == nil {
@@ -501,6 +554,19 @@ func (f *devFile) ReadDir(n int) ([]hackpadfs.DirEntry, error) {
 	case d.is("ReadDir:duplicate-entry") && len(entries) > 0:
 		d.fire()
 		entries = append(entries, entries[0])
+	case d.is("Rename:dest-listed-twice-in-subdir") || d.is("Mkdir:listed-twice-in-subdir"):
+		if base, ok := d.twice.Load(f.name); ok {
+			for _, e := range entries {
+				if e.Name() == base.(string) {
+					d.fire()
+					entries = append(entries, e)
+					break
+				}
+			}
+		}
+	case d.is("ReadDir:duplicate-in-subdir") && len(entries) > 0 && f.name != "." && f.name != "":
+		d.fire()
+		entries = append(entries, entries[len(entries)-1])
 	case d.is("ReadDir:wrong-isdir") && len(entries) > 0:
 		d.fire()
 		entries[0] = flippedEntry{entries[0]}
